@@ -16,7 +16,7 @@ META = dict(
     "reported as such), the size limit, and extract_refbasis_samples over all patterns of basis letters incl. user-defined letters",
     functions=["qucumber/nn_states/neural_state.py: generate_hilbert_space, subspace_vector, max_size", "qucumber/utils/unitaries.py: _convert_basis_element_to_index, _kron_mult, rotate_psi",
                "qucumber/utils/data.py: extract_refbasis_samples"],
-    bounds=dict(quick="index identity n = 1..8 on 3 symbolic rows; rotation n=2,3 non-palindromic strings; spaces of size 1..5 all indices; extract_refbasis on 3 rows x 2 sites over the alphabet {X,Y,Z,H}; size 21 refused",
+    bounds=dict(quick="index identity n = 1..8 on 3 symbolic rows; rotation n=2,3 non-palindromic strings; spaces of size 1..5 all indices; extract_refbasis on 3 rows x 2 sites over the alphabet {X,Y,Z,H}; size 21 refused; space requested again after in-place edits, from 3 state objects; explicit rho positions n = 1, 2 (strings with Y)",
                 thorough="spaces of size 1..7; size 20 accepted (2^20 rows) and 21 refused; 2 rows x 4 sites"),
     outside=["load_data / load_data_DM for arbitrary file contents: contents reach the code only through numpy.loadtxt's C parser, which cannot carry symbolic fields; only a bounded enumeration of small generated files (N, n <= 2, 0/1 samples, letters from {X,Y,Z,H}, a grid of target values; each path written and loaded twice) is explored",
              "sizes 8..19 of the Hilbert space (same vectorised code path, not enumerated)"],
